@@ -133,7 +133,7 @@ def parse_chunks(transfers):
         if cur is None or f:
             if cur is not None:
                 chunks.append(cur)                      # unterminated
-            cur = {"bytes": bytearray(), "headless": not f, "terminated": False, "cyc": cyc, "inner_last": 0}
+            cur = {"bytes": bytearray(), "headless": not f, "terminated": False, "cyc": cyc}
         cur["bytes"].append(d)
         if l:
             cur["terminated"] = True
@@ -174,6 +174,8 @@ def judge(ep, res, packets):
 
     if not ok:
         delivered = classify_failure(ep, res, packets, chunks, bad)
+        if delivered is None:
+            return False            # bytes cannot be attributed to candidates: no space analysis possible
 
     # ---- dropped / space analysis (also produces the coverage bins)
     prev = 0
@@ -233,8 +235,9 @@ def classify_failure(ep, res, packets, chunks, bad):
             raw = p["wire"][1:-2]
             if len(data) >= 1 and (data == raw or (len(data) >= 2 and raw.startswith(data)) or data == p["wire"][1:]):
                 mech = {"corrupt": "corrupt_packet_delivered", "foreign": "foreign_packet_delivered"}.get(p["class"], "non_candidate_packet_delivered")
-                res.violation(mech, "%s carries payload of wire packet %s (%s)" % (where, p["wire"].hex(), p["kind"]))
-                return delivered
+                res.violation(mech, "ep%d mps=%d buffer=%d: output chunk @cyc%d %s is the payload of wire packet %s (%s), which is not a CRC-valid packet for this endpoint" % (
+                    ep.number, ep.mps, ep.B, ch["cyc"], data.hex(), p["wire"].hex(), p["kind"]))
+                return None
 
     # 2. whole candidates, but flags wrong?
     p = 0
@@ -269,7 +272,7 @@ def classify_failure(ep, res, packets, chunks, bad):
             if c["payload"] == data:
                 if k in seen:
                     res.violation("packet_delivered_twice", "%s: candidate id=0x%02x appears twice" % (where, data[0]))
-                    return delivered
+                    return None
                 seen.add(k)
                 break
 
@@ -307,7 +310,7 @@ def classify_failure(ep, res, packets, chunks, bad):
         return delivered
 
     res.violation("output_not_from_valid_packets", "%s; output=%s" % (where, O[:80].hex()))
-    return delivered
+    return None
 
 
 # ------------------------------------------------------------------------------------------ case
